@@ -280,69 +280,56 @@ Section LoadFlush.
 End LoadFlush.
 
 (* ---------------------------------------------------------------- persist and reload *)
-Definition reload (S : schema) (alts : list (Z * Z)) (pk : addr -> nat) (l : lheap) (r : addr) : option (addr * st) :=
-  match to_dao alts l r with
+Definition reload (S : schema) (enc dec : Z -> list Z -> list Z) (alts : list (Z * Z)) (ab : list Z) (pk : addr -> nat)
+  (l : lheap) (r : addr) : option (addr * st) :=
+  match to_dao enc alts l r with
   | None => None
-  | Some (dr, s1) => from_dao alts (load S (flush S (dst s1) (nxt s1) pk)) (nxt s1) dr st0
+  | Some (dr, s1) => from_dao dec alts ab (load S (flush S (dst s1) (nxt s1) pk)) (nxt s1) dr st0
   end.
 
-Theorem reload_iso S alts pk l r dr s1 :
-  wf_heap l r = true -> F04 alts l = true -> to_dao alts l r = Some (dr, s1) ->
-  wf_dao S (dst s1) (nxt s1) = true -> F05 S (dst s1) (nxt s1) = true ->
-  (forall a b, a < nxt s1 -> b < nxt s1 -> K S (dst s1) pk a = K S (dst s1) pk b -> a = b) ->
-  exists r' s2, reload S alts pk l r = Some (r', s2) /\ iso (dst s2) r' (heap_of l) r.
-Proof.
-  intros Hwf HF Hto Hwd HF5 Hinj. unfold reload. rewrite Hto. unfold to_dao in Hto.
-  assert (Hc1 : forall a o, heap_of l a = Some o -> p_cmap (P_todao alts) (ocls o) = ocls o).
-  { intros a o Ho. simpl. now rewrite (proj1 (F04_cls alts l a o HF Ho)). }
-  destruct (wf_walk_iso (P_todao alts) l r (fun _ _ _ => eq_refl) Hc1 Hwf) as [d' [s1' [E1 [I1 [M1 [D1 _]]]]]].
-  rewrite Hto in E1. inversion E1; subst d' s1'. clear E1.
-  set (L := load S (flush S (dst s1) (nxt s1) pk)).
-  assert (HL : forall a, a < nxt s1 -> L a = dst s1 a) by (intros a Ha; apply load_flush; auto).
-  assert (HLb : forall a, nxt s1 <= a -> L a = None) by (intros a Ha; apply load_beyond; auto).
-  pose proof (result_closed (P_todao alts) (heap_of l) _ s1 I1 D1) as Hcl.
-  assert (Hcl2 : forall a, In a (seq 0 (nxt s1)) -> exists o, L a = Some o /\
-            forall t ks k, In (t, ks) (oflds o) -> In k ks -> In k (seq 0 (nxt s1))).
-  { intros a Ha. destruct (Hcl a Ha) as [o [Ho Hk]]. exists o. split; auto. rewrite HL; auto. apply in_seq in Ha. lia. }
-  assert (Hl2 : forall y ob, L y = Some ob -> p_late (P_fromdao alts) (p_cmap (P_fromdao alts) (ocls ob)) = None).
-  { intros y ob Hy. destruct (Nat.lt_ge_cases y (nxt s1)) as [Hlt|Hge]; [|rewrite HLb in Hy; [discriminate|auto]].
-    rewrite HL in Hy by auto. simpl. destruct I1 as [_ [_ [_ [J4 _]]]]. destruct (J4 _ _ Hy) as [x [o [Ho Hcls]]].
-    rewrite Hcls, (Hc1 _ _ Ho). exact (proj2 (F04_cls alts l x o HF Ho)). }
-  assert (Hd : In dr (seq 0 (nxt s1))).
-  { apply in_seq. destruct I1 as [J1 _]. specialize (J1 _ _ M1). lia. }
-  unfold from_dao.
-  destruct (walk_iso (P_fromdao alts) L (seq 0 (nxt s1)) (fun a => In a (seq 0 (nxt s1))) Hcl2 (fun a H => H) Hl2 (fun _ _ _ => eq_refl) dr Hd)
-    as [r' [s2 [E2 [I2 [M2 [D2 Iso2]]]]]].
-  rewrite seq_length in E2. exists r', s2. split; [exact E2|].
-  apply iso_sym. eapply iso_trans; [|exact Iso2].
-  destruct (walk_bisim (P_todao alts) (heap_of l) _ Hc1 s1 I1 D1) as [Hb [Hf Hi]].
-  exists (krel s1). split; [exact M1|]. split; [|split; auto].
-  eapply bisim_agree; [exact Hb|]. intros a b Hab. apply HL. destruct I1 as [J1 _]. eapply J1; eauto.
-Qed.
+Section Codec5.
+  Variables enc dec : Z -> list Z -> list Z.
+  Hypothesis Hcodec : forall c s, dec c (enc c s) = s.
 
-(* exactly one root row per reachable object: root row i <-> the object x with memo x = i; the memo of to_dao is
-   defined exactly on the objects reachable from the root, is injective, and its values are exactly 0 .. nxt-1 *)
-Theorem one_root_row_per_object S alts pk l r dr s1 :
-  wf_heap l r = true -> F04 alts l = true -> to_dao alts l r = Some (dr, s1) ->
-  length (t_root (flush S (dst s1) (nxt s1) pk)) = nxt s1 /\
-  (forall x, reach (heap_of l) r x <-> exists i, mlook x s1 = Some i) /\
-  (forall i, i < nxt s1 -> exists x, mlook x s1 = Some i) /\
-  (forall x x' i, mlook x s1 = Some i -> mlook x' s1 = Some i -> x = x') /\
-  (forall x i, mlook x s1 = Some i -> i < nxt s1).
-Proof.
-  intros Hwf HF Hto. unfold to_dao in Hto.
-  assert (Hc1 : forall a o, heap_of l a = Some o -> p_cmap (P_todao alts) (ocls o) = ocls o).
-  { intros a o Ho. simpl. now rewrite (proj1 (F04_cls alts l a o HF Ho)). }
-  destruct (wf_walk_iso (P_todao alts) l r (fun _ _ _ => eq_refl) Hc1 Hwf) as [d' [s1' [E1 [I1 [M1 [D1 _]]]]]].
-  rewrite Hto in E1. inversion E1; subst d' s1'.
-  destruct (walk_bisim (P_todao alts) (heap_of l) _ Hc1 s1 I1 D1) as [Hb _].
-  destruct I1 as [J1 [J2 [J3 [_ [J5 _]]]]].
-  split; [simpl; now rewrite map_length, seq_length|].
-  split; [|repeat split; auto].
-  intros x. split.
-  - intros Hx. destruct (bisim_reach (krel s1) _ _ r dr M1 Hb x Hx) as [b [Hxb _]]. eauto.
-  - intros [i Hi]. eauto.
-Qed.
+  (* to_dao; flush; load; from_dao -- alternatively mapped classes and DAOs below an alternatively mapped DAO included, unless
+     from_dao hands out a mapping object in progress (C04-a).  The side conditions are about the DAO graph that is persisted. *)
+  Theorem reload_iso S alts ab pk l r dr s1 :
+    wf_heap l r = true -> alts_ok alts l = true -> to_dao enc alts l r = Some (dr, s1) ->
+    wf_dao S (dst s1) (nxt s1) = true -> F05 S (dst s1) (nxt s1) = true ->
+    (forall a b, a < nxt s1 -> b < nxt s1 -> K S (dst s1) pk a = K S (dst s1) pk b -> a = b) ->
+    exists r' s2, reload S enc dec alts ab pk l r = Some (r', s2) /\
+      (bad s2 = false -> iso (dst s2) r' (heap_of l) r) /\
+      ((forall y o, y < nxt s1 -> dst s1 y = Some o -> zassoc_inv (ocls o) alts = None) -> bad s2 = false).
+  Proof.
+    intros Hwf Hok Hto Hwd HF5 Hinj. unfold reload. rewrite Hto.
+    set (L := load S (flush S (dst s1) (nxt s1) pk)).
+    assert (HL : forall a, a < nxt s1 -> L a = dst s1 a) by (intros a Ha; apply load_flush; auto).
+    destruct (second_stage enc dec Hcodec alts ab l r dr s1 L Hwf Hok Hto HL) as [r' [s2 [E2 [Hiso Hnb]]]].
+    exists r', s2. split; [exact E2|]. split; [exact Hiso|].
+    intros H. apply Hnb. intros y o Hy Ho. rewrite HL in Ho by auto. eauto.
+  Qed.
+
+  (* exactly one root row per reachable object: root row i <-> the object x with memo x = i; the memo of to_dao is
+     defined exactly on the objects reachable from the root, is injective, and its values are exactly 0 .. nxt-1 *)
+  Theorem one_root_row_per_object S alts pk l r dr s1 :
+    wf_heap l r = true -> to_dao enc alts l r = Some (dr, s1) ->
+    length (t_root (flush S (dst s1) (nxt s1) pk)) = nxt s1 /\
+    (forall x, reach (heap_of l) r x <-> exists i, mlook x s1 = Some i) /\
+    (forall i, i < nxt s1 -> exists x, mlook x s1 = Some i) /\
+    (forall x x' i, mlook x s1 = Some i -> mlook x' s1 = Some i -> x = x') /\
+    (forall x i, mlook x s1 = Some i -> i < nxt s1).
+  Proof.
+    intros Hwf Hto.
+    destruct (todao_facts enc alts l r Hwf) as [d' [s1' [E1 [I1 [M1 [_ [D1 [B1 _]]]]]]]].
+    rewrite Hto in E1. inversion E1; subst d' s1'.
+    destruct I1 as [J1 [J2 [J3 [J5 _]]]].
+    split; [simpl; now rewrite map_length, seq_length|].
+    split; [|split; [exact (J3 (todao_plain enc alts _ _))|split; auto]].
+    intros x. split.
+    - intros Hx. destruct (bisim_g_reach _ (krel s1) _ _ r dr M1 B1 x Hx) as [b [Hxb _]]. eauto.
+    - intros [i Hi]. eauto.
+  Qed.
+End Codec5.
 
 (* ---------------------------------------------------------------- the side conditions, stated on the object graph *)
 Definition wf_src_obj (S : schema) (o : obj) : bool :=
@@ -377,24 +364,26 @@ Proof.
   assert (x' = x) by (eapply Hinj; eauto). subst. contradiction.
 Qed.
 
+(* strict fragment (no alternatively mapped object), identity codecs: the conditions on the object graph carry over to the
+   DAO graph *)
 Lemma conditions_transfer S alts l r dr s1 :
-  wf_heap l r = true -> F04 alts l = true -> to_dao alts l r = Some (dr, s1) ->
+  wf_heap l r = true -> F04 alts l = true -> to_dao idc alts l r = Some (dr, s1) ->
   wf_src S l = true -> F05_src S l = true ->
   wf_dao S (dst s1) (nxt s1) = true /\ F05 S (dst s1) (nxt s1) = true.
 Proof.
-  intros Hwf HF Hto Hws HFs. unfold to_dao in Hto.
-  assert (Hc1 : forall a o, heap_of l a = Some o -> p_cmap (P_todao alts) (ocls o) = ocls o).
-  { intros a o Ho. simpl. now rewrite (proj1 (F04_cls alts l a o HF Ho)). }
-  destruct (wf_walk_iso (P_todao alts) l r (fun _ _ _ => eq_refl) Hc1 Hwf) as [d' [s1' [E1 [I1 [M1 [D1 _]]]]]].
+  intros Hwf HF Hto Hws HFs.
+  destruct (todao_facts idc alts l r Hwf) as [d' [s1' [E1 [I1 [M1 [_ [D1 [_ [_ Hinj]]]]]]]]].
   rewrite Hto in E1. inversion E1; subst d' s1'. clear E1.
-  destruct I1 as [J1 [J2 [J3 _]]].
+  destruct I1 as [J1 [J2 [J3 _]]]. pose proof (J3 (todao_plain idc alts _ _)) as J3'.
   unfold wf_src in Hws. unfold F05_src in HFs. rewrite forallb_forall in Hws, HFs.
   assert (Hy : forall y, In y (seq 0 (nxt s1)) -> exists o fl', In o (map snd l) /\
              dst s1 y = Some (mkObj (ocls o) (oscal o) fl') /\ Forall2 (fld_rel (krel s1)) (oflds o) fl').
-  { intros y Hy. apply in_seq in Hy. destruct (J3 y) as [x Hx]; [lia|].
-    destruct (D1 _ _ Hx) as [o [fl' [Ho [Hd Hf]]]]. exists o, fl'. split; [|split; auto].
+  { intros y Hy. apply in_seq in Hy. destruct (J3' y) as [x Hx]; [lia|].
+    destruct (D1 _ _ Hx) as [o [fl' [Ho [Hd Hf]]]]. exists o, fl'. split; [|split].
     - apply assoc_Some_In in Ho. apply in_map_iff. exists (x, o). auto.
-    - rewrite Hd. now rewrite (Hc1 _ _ Ho). }
+    - rewrite Hd. unfold fobj. simpl. unfold cm, idc. now rewrite (proj1 (F04_cls alts l x o HF Ho)).
+    - eapply Forall2_impl; [|exact Hf]. intros g g' [Ht Hks]. split; auto.
+      eapply Forall2_impl; [|exact Hks]. intros k d [H _]. exact H. }
   split; unfold wf_dao, F05; apply forallb_forall; intros y Hyin;
     destruct (Hy y Hyin) as [o [fl' [Hin [Hd Hf]]]]; rewrite Hd;
     apply in_map_iff in Hin; destruct Hin as [[x o'] [Eo Hin]]; simpl in Eo; subst o'.
@@ -413,21 +402,25 @@ Proof.
     + destruct (is_selfref S (fst f)); auto. destruct (snd f); [|discriminate]. inversion Hk. reflexivity.
 Qed.
 
-(* C05 with every hypothesis about the input: graph g over the schema, in F04 and F05; any key assignment that is
-   injective on the DAOs of a hierarchy *)
-Theorem reload_iso_src S alts pk l r :
+(* C05 with every hypothesis about the input: graph g over the schema, in the strict F04 and in F05; any key assignment
+   that is injective on the DAOs of a hierarchy *)
+Theorem reload_iso_src S alts ab pk l r :
   wf_heap l r = true -> F04 alts l = true -> wf_src S l = true -> F05_src S l = true ->
-  exists dr s1, to_dao alts l r = Some (dr, s1) /\
+  exists dr s1, to_dao idc alts l r = Some (dr, s1) /\
     ((forall a b, a < nxt s1 -> b < nxt s1 -> K S (dst s1) pk a = K S (dst s1) pk b -> a = b) ->
-     exists r' s2, reload S alts pk l r = Some (r', s2) /\ iso (dst s2) r' (heap_of l) r).
+     exists r' s2, reload S idc idc alts ab pk l r = Some (r', s2) /\ iso (dst s2) r' (heap_of l) r).
 Proof.
   intros Hwf HF Hws HFs.
-  assert (Hc1 : forall a o, heap_of l a = Some o -> p_cmap (P_todao alts) (ocls o) = ocls o).
-  { intros a o Ho. simpl. now rewrite (proj1 (F04_cls alts l a o HF Ho)). }
-  destruct (wf_walk_iso (P_todao alts) l r (fun _ _ _ => eq_refl) Hc1 Hwf) as [dr [s1 [E1 _]]].
+  destruct (todao_facts idc alts l r Hwf) as [dr [s1 [E1 [I1 [M1 [_ [D1 _]]]]]]].
   exists dr, s1. split; [exact E1|]. intros Hinj.
   destruct (conditions_transfer S alts l r dr s1 Hwf HF E1 Hws HFs) as [Hwd HF5].
-  eapply reload_iso; eauto.
+  destruct (reload_iso idc idc (fun _ _ => eq_refl) S alts ab pk l r dr s1 Hwf (F04_alts_ok alts l HF) E1 Hwd HF5 Hinj)
+    as [r' [s2 [E2 [Hiso Hnb]]]].
+  exists r', s2. split; [exact E2|]. apply Hiso. apply Hnb.
+  intros y ob Hy Hyo. destruct I1 as [_ [_ [K3 _]]].
+  destruct (K3 (todao_plain idc alts _ _) y Hy) as [x Hx]. destruct (D1 _ _ Hx) as [o [fl' [Ho [Hd _]]]].
+  rewrite Hd in Hyo. inversion Hyo; subst ob. simpl. unfold fobj. simpl.
+  destruct (F04_cls alts l x o HF Ho) as [Z1 Z2]. unfold cm. rewrite Z1. exact Z2.
 Qed.
 
 (* ---------------------------------------------------------------- what the correspondence evaluates *)
@@ -438,8 +431,8 @@ Proof.
   unfold K, pk_id. destruct (d a), (d b); intros H; inversion H; lia.
 Qed.
 
-Definition model_reload (S : schema) (alts : list (Z * Z)) (l : lheap) (r : addr) : sx :=
-  match reload S alts (pk_id 1) l r with
+Definition model_reload (S : schema) (alts : list (Z * Z)) (ab : list Z) (l : lheap) (r : addr) : sx :=
+  match reload S idc idc alts ab (pk_id 1) l r with
   | None => SL [SZ (-2)%Z]
   | Some (r', s2) => sx_canon (canon (dst s2) (nxt s2) r')
   end.
@@ -447,7 +440,7 @@ Definition model_reload (S : schema) (alts : list (Z * Z)) (l : lheap) (r : addr
 (* rows per table and per association table predicted by flush *)
 Definition count_z (c : Z) (l : list Z) : nat := length (filter (Z.eqb c) l).
 Definition model_counts (S : schema) (alts : list (Z * Z)) (l : lheap) (r : addr) (tables tags : list Z) : sx :=
-  match to_dao alts l r with
+  match to_dao idc alts l r with
   | None => SL [SZ (-2)%Z]
   | Some (dr, s1) =>
       let D := flush S (dst s1) (nxt s1) (pk_id 1) in
@@ -455,22 +448,27 @@ Definition model_counts (S : schema) (alts : list (Z * Z)) (l : lheap) (r : addr
           SL (map (fun t => SZ (Z.of_nat (count_z t (map (fun x : key * Z * key => snd (fst x)) (t_assoc D))))) tags)]
   end.
 
-Definition frag_code (S : schema) (alts : list (Z * Z)) (l : lheap) (r : addr) : Z :=
-  match to_dao alts l r with
+(* 1: coherent class model and no mapping object handed out in progress (C05_reload applies as far as C04 goes);
+   2: the DAO graph fits the schema; 4: F05.  7 = inside the fragment. *)
+Definition frag_code (S : schema) (alts : list (Z * Z)) (ab : list Z) (l : lheap) (r : addr) : Z :=
+  match to_dao idc alts l r with
   | None => (-1)%Z
-  | Some (dr, s1) => ((if F04 alts l then 1 else 0) + (if wf_dao S (dst s1) (nxt s1) then 2 else 0)
-                      + (if F05 S (dst s1) (nxt s1) then 4 else 0))%Z
+  | Some (dr, s1) =>
+      ((if alts_ok alts l && match reload S idc idc alts ab (pk_id 1) l r with Some (_, s2) => negb (bad s2) | None => false end
+        then 1 else 0)
+       + (if wf_dao S (dst s1) (nxt s1) then 2 else 0)
+       + (if F05 S (dst s1) (nxt s1) then 4 else 0))%Z
   end.
 
-Definition case_code5 (S : schema) (alts : list (Z * Z)) (tables tags : list Z) (l : lheap) (r : addr)
+Definition case_code5 (S : schema) (alts : list (Z * Z)) (ab : list Z) (tables tags : list Z) (l : lheap) (r : addr)
   (l' : lheap) (r' : addr) (counts : sx) : sx :=
-  SL [SZ (classify (spec_canon l' r') (model_reload S alts l r) (spec_canon l r));
-      SZ (frag_code S alts l r);
+  SL [SZ (classify (spec_canon l' r') (model_reload S alts ab l r) (spec_canon l r));
+      SZ (frag_code S alts ab l r);
       SZ (if wf_heap l r && wf_heap l' r' then 1 else 0)%Z;
       SZ (if sx_eqb counts (model_counts S alts l r tables tags) then 1 else 0)%Z].
 
 (* ---------------------------------------------------------------- refutation witnesses *)
-(* C05-a: Node (class 1, single reference tag 2 into its own hierarchy): two children of one parent *)
+(* C05-a (fixed in the generator by 22a99b9): Node (class 1, single reference tag 2 read as ONETOMANY): two children of one parent *)
 (* a holder (class 5, collection tag 7) of two Nodes that share their parent *)
 Definition selfref_heap2 : lheap :=
   [(0, mkObj 5 [] [(7%Z, [1; 2])]); (1, mkObj 1 [] [(2%Z, [3])]); (2, mkObj 1 [] [(2%Z, [3])]); (3, mkObj 1 [] [(2%Z, [])])].
@@ -478,11 +476,11 @@ Definition selfref_schema2 : schema := mkSchema [] [] [(1%Z, [2%Z]); (5%Z, [7%Z]
 
 Theorem refuted_selfref :
   wf_heap selfref_heap2 0 = true /\
-  exists r' s2, reload selfref_schema2 [] (pk_id 1) selfref_heap2 0 = Some (r', s2) /\
+  exists r' s2, reload selfref_schema2 idc idc [] [] (pk_id 1) selfref_heap2 0 = Some (r', s2) /\
     ~ iso (dst s2) r' (heap_of selfref_heap2) 0.
 Proof.
   split; [reflexivity|].
-  destruct (reload selfref_schema2 [] (pk_id 1) selfref_heap2 0) as [[r' s2]|] eqn:E; [|vm_compute in E; discriminate].
+  destruct (reload selfref_schema2 idc idc [] [] (pk_id 1) selfref_heap2 0) as [[r' s2]|] eqn:E; [|vm_compute in E; discriminate].
   exists r', s2. split; auto. intros Hiso.
   pose proof (iso_path_obs _ _ _ _ Hiso [(0, 0); (0, 0)]) as H.
   vm_compute in E. inversion E; subst. vm_compute in H. discriminate.
@@ -495,11 +493,11 @@ Definition repeated_heap : lheap :=
 
 Theorem refuted_repeated_element :
   wf_heap repeated_heap 0 = true /\
-  exists r' s2, reload repeated_schema [] (pk_id 1) repeated_heap 0 = Some (r', s2) /\
+  exists r' s2, reload repeated_schema idc idc [] [] (pk_id 1) repeated_heap 0 = Some (r', s2) /\
     ~ iso (dst s2) r' (heap_of repeated_heap) 0.
 Proof.
   split; [reflexivity|].
-  destruct (reload repeated_schema [] (pk_id 1) repeated_heap 0) as [[r' s2]|] eqn:E; [|vm_compute in E; discriminate].
+  destruct (reload repeated_schema idc idc [] [] (pk_id 1) repeated_heap 0) as [[r' s2]|] eqn:E; [|vm_compute in E; discriminate].
   exists r', s2. split; auto. intros Hiso.
   pose proof (iso_path_obs _ _ _ _ Hiso [(0, 2)]) as H.
   vm_compute in E. inversion E; subst. vm_compute in H. discriminate.
